@@ -216,6 +216,7 @@ def run(ctx: common.Ctx):
     dist = collections.Counter()
     bad_programs: list = []
     queries, qmeta = [], []
+    n_ord = n_ord_dis = 0
     n_py = n_py_dis = n_ver = n_ver_dis = n_tag = n_tag_dis = n_parts = n_parts_dis = n_comm = 0
     for t, res in zip(tasks, results):
         if res.get("timeout"):
@@ -282,6 +283,22 @@ def run(ctx: common.Ctx):
                 sig += ":send-of-unmodified-recv"
             ctx.violation(sig, f"verify_distributed_partition does not accept the partition of a valid program "
                           f"({prog}): {json.dumps(rv)}", dict(replay, ranks=rv))
+        od = res.get("order")
+        if od:
+            n_ord += od["counters"].get("permuted_partitions", 0)
+            seen_sig = set()
+            for pb_ in od["problems"]:
+                n_ord_dis += 1
+                sig = "order-dependence:" + pb_["what"]
+                if sig in seen_sig:
+                    continue
+                seen_sig.add(sig)
+                bad_programs.append({"program": prog})
+                ctx.violation(sig, f"the real partition of {prog}, rebuilt with the entries of every mapping / set "
+                              f"(parts, name_to_output, name_to_recv_node, name_to_send_nodes, output_names, "
+                              f"needed_pids, input names) in another order ({pb_['order']}): {pb_['what']} — "
+                              f"{pb_['detail']}; as returned by find_distributed_partition it is accepted",
+                              dict(replay, order=pb_["order"], what=pb_["what"], detail=pb_["detail"]))
         # independent clause check
         n_py += 1
         if res["py_clauses"]:
@@ -459,7 +476,9 @@ def run(ctx: common.Ctx):
                        "checkWF in ptdriver, the seven clauses in Python, verify's verdict, parts vs broadcast "
                        "batches, batches vs Lean model, integer tags across ranks, tag table vs Lean numberTags",
                    comparisons={"checkWF": [n_wf, n_wf_dis], "python_clauses": [n_py, n_py_dis],
-                                "verify_accepts": [n_ver, n_ver_dis], "parts_vs_batches": [n_parts, n_parts_dis],
+                                "verify_accepts": [n_ver, n_ver_dis],
+                                "verify_and_tags_with_mappings_and_sets_permuted": [n_ord, n_ord_dis],
+                                "parts_vs_batches": [n_parts, n_parts_dis],
                                 "batches_vs_model": [n_b, n_b_dis],
                                 "model_partition_skeleton_vs_real": [n_sk, n_sk_dis],
                                 "model_partition_full_vs_real": [n_pm, n_pm_dis],
